@@ -299,7 +299,17 @@ fn gen_ring_tri(rng: &mut Rng) -> Vec<Coord<f64>> {
     v
 }
 
-pub fn gen(rng: &mut Rng, _index: u64) -> String {
+pub fn gen(rng: &mut Rng, index: u64) -> String {
+    if index % 1500 == 777 {
+        // an axis-parallel or 3-4-5 line of exact length cut into 2^20 … 2^22 (+ a few) pieces
+        let pieces = (1i64 << rng.range(20, 22)) + rng.range(0, 3);
+        let mx = *rng.pick(&[1.0f64, 0.5, 2.0]);
+        let len = pieces as f64 * mx;
+        let a = Coord { x: rng.range(-5, 5) as f64, y: rng.range(-5, 5) as f64 };
+        let b = match rng.below(3) { 0 => Coord { x: a.x + len, y: a.y }, 1 => Coord { x: a.x, y: a.y - len }, _ => { let q = ((1i64 << rng.range(18, 19)) + rng.range(0, 3)) as f64; Coord { x: a.x + 3.0 * q, y: a.y + 4.0 * q } } };
+        let ty = if rng.chance(2, 3) { "ln" } else { "ls" };
+        return format!("C15.densbig {} max {} {}", proto::geom(&Geometry::Line(Line::new(a, b))), proto::num(mx), ty);
+    }
     if rng.chance(11, 20) {
         gen_interp(rng)
     } else {
@@ -412,10 +422,33 @@ fn eval_densify(t: &mut Toks) -> R<String> {
     Ok(proto::geom(&out))
 }
 
+/// `C15.densbig LN a b max m ty => n <coords> maxseg <longest piece> first <pt> last <pt>`: a Line (as `Line` or as a two-vertex
+/// `LineString`, token `ty`) cut into more pieces than any plausible cap (millions); only the summary crosses the protocol.
+fn eval_densbig(t: &mut Toks) -> R<String> {
+    let g = t.geom()?;
+    expect_lit(t, "max")?;
+    let mx = t.num()?;
+    let as_ls = t.tok()? == "ls";
+    let l = match &g { Geometry::Line(l) => *l, _ => return Err("densbig wants LN".into()) };
+    let n_est = ((l.end.x - l.start.x).hypot(l.end.y - l.start.y) / mx).abs();
+    if !(n_est < 9.0e6) {
+        return Err("densbig: too many pieces for this harness".into());
+    }
+    let out: LineString<f64> = if as_ls { Euclidean.densify(&LineString(vec![l.start, l.end]), mx) } else { Euclidean.densify(&l, mx) };
+    let mut longest = 0.0f64;
+    for w in out.0.windows(2) {
+        let d = (w[1].x - w[0].x).hypot(w[1].y - w[0].y);
+        if d > longest { longest = d; }
+    }
+    let (f, la) = (out.0.first().copied().unwrap_or(Coord { x: f64::NAN, y: f64::NAN }), out.0.last().copied().unwrap_or(Coord { x: f64::NAN, y: f64::NAN }));
+    Ok(format!("n {} maxseg {} first {} last {}", out.0.len(), proto::num(longest), proto::coord(f), proto::coord(la)))
+}
+
 pub fn eval(op: &str, t: &mut Toks) -> R<String> {
     match op {
         "C15.interp" => eval_interp(t),
         "C15.densify" => eval_densify(t),
+        "C15.densbig" => eval_densbig(t),
         _ => Err(format!("unknown op {}", op)),
     }
 }
